@@ -2,7 +2,8 @@
  *
  * usage: c15_digest run <seed> <ncases> <nops> <module>...
  *        c15_digest one <case_seed> <nops> <module> [-v] [-g1] (replay of one case; -g1: first-generation generators only)
- *        c15_digest probe <module>...                          (prints: probe <path> <invert-loop capable> <8-bit looped samples>)
+ *        c15_digest probe <module>...                          (prints: probe <path> <invert-loop capable> <8-bit looped samples>
+ *                                                                <non-default instrument volumes> <sub-instruments whose sample number differs from the instrument number>)
  *
  * A case = (module, sample rate, output format, interpolator, player flags, optional injection of
  * Protracker invert-loop effects into the patterns before the snapshot, random history of API
@@ -20,7 +21,7 @@
  * Output:
  *   case <case_seed> <nops> <path> rate=.. fmt=.. interp=.. inject=.. smp=.. pat=..
  *   o_fail <signature> op=<index>:<name> <details>          a violation of the property
- *   inv <call> <chn> <speed> <count0> <pos0> <count1> <pos1> <smp> <present> <loop> <sloop> <16bit> <datanull>
+ *   inv <call> <chn> <speed> <count0> <pos0> <count1> <pos1> <smp> <voice mapped> <voice smp> <voice queued?> <queued smp> <voice paused?> <present> <loop> <sloop> <16bit> <datanull>
  *       <lps> <lpe> <sus> <sue> <nflipped> <first flipped offset>
  *                       correspondence for the model of update_invloop (one line per xmp_play_frame and channel
  *                       with invert-loop speed > 0): state before/after, what it reads, what was flipped
@@ -34,6 +35,8 @@
 #include "common.h"
 #include "effects.h"
 #include "player.h"
+#include "mixer.h"
+#include "virtual.h"
 
 struct ssnap {
 	unsigned char *begin;		/* allocation start (NULL: no data) */
@@ -183,6 +186,35 @@ static void fail(const char *sig, int opidx, const char *opname, const char *fmt
 }
 
 /* is the invert-loop effect currently applied to sample i by some channel? */
+/* the voice mapped to channel c: 1 and its (smp, queued?, queued smp), or 0 if the channel has no voice */
+static int chan_voice(struct context_data *ctx, int c, int *vsmp, int *vq, int *vqsmp, int *vpaused)
+{
+	struct player_data *p = &ctx->p;
+	int voc = (p->virt.virt_channel && c < p->virt.virt_channels) ? p->virt.virt_channel[c].map : -1;
+	*vsmp = *vqsmp = -1;
+	*vq = *vpaused = 0;
+	if (voc < 0 || voc >= p->virt.maxvoc || p->virt.voice_array == NULL)
+		return 0;
+	*vsmp = p->virt.voice_array[voc].smp;
+	*vq = (p->virt.voice_array[voc].flags & SAMPLE_QUEUED) ? 1 : 0;
+	*vqsmp = p->virt.voice_array[voc].queued.smp;
+	*vpaused = (p->virt.voice_array[voc].flags & SAMPLE_PAUSED) ? 1 : 0;
+	return 1;
+}
+
+/* "the sample the effect is applied to" is the one the channel's voice plays (or has queued by a Protracker
+ * sample swap): channel and voice must agree on it.  A channel without a voice cannot be judged. */
+static int chan_coherent(struct context_data *ctx, int c)
+{
+	int vsmp, vq, vqsmp, vpaused;
+	struct channel_data *xc = &ctx->p.xc_data[c];
+	if (!chan_voice(ctx, c, &vsmp, &vq, &vqsmp, &vpaused))
+		return 1;
+	/* a queued swap: the queued sample is the channel's (or "none": the voice is about to stop);
+	 * otherwise the voice plays the channel's sample, or is paused (silent) */
+	return vq ? (vqsmp < 0 || vqsmp == xc->smp) : (vpaused || vsmp == xc->smp);
+}
+
 static int invloop_active_on(struct context_data *ctx, int smp)
 {
 	struct player_data *p = &ctx->p;
@@ -191,7 +223,22 @@ static int invloop_active_on(struct context_data *ctx, int smp)
 		return 0;
 	for (c = 0; c < p->virt.virt_channels; c++) {
 		struct channel_data *xc = &p->xc_data[c];
-		if (xc->invloop.speed > 0 && xc->smp == smp)
+		if (xc->invloop.speed > 0 && xc->smp == smp && chan_coherent(ctx, c))
+			return 1;
+	}
+	return 0;
+}
+
+/* a channel applies invert-loop to this sample while its voice plays another one */
+static int invloop_incoherent_on(struct context_data *ctx, int smp)
+{
+	struct player_data *p = &ctx->p;
+	int c;
+	if (p->xc_data == NULL)
+		return 0;
+	for (c = 0; c < p->virt.virt_channels; c++) {
+		struct channel_data *xc = &p->xc_data[c];
+		if (xc->invloop.speed > 0 && xc->smp == smp && !chan_coherent(ctx, c))
 			return 1;
 	}
 	return 0;
@@ -305,6 +352,11 @@ static void compare(struct context_data *ctx, struct snapshot *s, int opidx, con
 					continue;
 				}
 				if (inrange && !legal && o >= lo && o < hi && sd->begin[k] == (unsigned char)(sd->copy[k] ^ 0xff)) {
+					if (!multi && invloop_incoherent_on(ctx, i)) {
+						fail("invloop-unrelated-sample", opidx, opname,
+						     "sample %ld: byte at offset %ld inverted by a channel whose voice plays (and has queued) a different sample%.0ld", i, o, 0);
+						continue;
+					}
 					fail("invloop-while-off", opidx, opname,
 					     "sample %ld: byte at offset %ld inside its loop was inverted although no channel applies invert-loop (speed > 0) to it%.0ld", i, o, 0);
 					continue;
@@ -450,6 +502,51 @@ static int vary_c5spd(struct context_data *ctx)
 	return n;
 }
 
+/* modules whose format carries instrument / sub-instrument global volumes (QUIRK_INSVOL): any value up to the
+ * volume base is a legitimate loader result */
+static int vary_insvol(struct context_data *ctx)
+{
+	struct module_data *m = &ctx->m;
+	struct xmp_module *mod = &m->mod;
+	int i, j, n = 0;
+	if (!HAS_QUIRK(QUIRK_INSVOL) || m->volbase <= 0)
+		return 0;
+	for (i = 0; i < mod->ins; i++) {
+		if (vrng_chance(50)) {
+			mod->xxi[i].vol = vrng_range(0, m->volbase);
+			n++;
+		}
+		for (j = 0; j < mod->xxi[i].nsm; j++)
+			if (vrng_chance(50))
+				mod->xxi[i].sub[j].gvl = vrng_range(0, m->volbase);
+	}
+	return n;
+}
+
+/* invert-loop effects whatever the module's own quirks are */
+static int inject_invloop_any(struct context_data *ctx)
+{
+	struct xmp_module *mod = &ctx->m.mod;
+	int t, n = 0, tries;
+	if (mod->trk <= 0)
+		return 0;
+	for (tries = 0; tries < 40; tries++) {
+		struct xmp_track *tr;
+		struct xmp_event *e;
+		t = vrng_below(mod->trk);
+		tr = mod->xxt[t];
+		if (tr == NULL || tr->rows <= 0)
+			continue;
+		e = &tr->event[vrng_below(tr->rows)];
+		if (e->fxt != 0 || e->fxp != 0)
+			continue;
+		e->fxt = FX_EXTENDED;
+		e->fxp = (EX_INVLOOP << 4) | vrng_range(8, 15);
+		n++;
+	}
+	return n;
+}
+
 static int scan_invloop(struct xmp_module *mod)
 {
 	int t, r;
@@ -497,6 +594,10 @@ static void inv_after(struct context_data *ctx)
 			continue;	/* effect off and nothing pending: update_invloop cannot do anything */
 		printf("inv %ld %d %d %d %d %d %d %d ", n_calls, c, xc->invloop.speed, inv_count0[c], inv_pos0[c],
 		       xc->invloop.count, xc->invloop.pos, xc->smp);
+		{
+			int vsmp, vq, vqsmp, vpaused, mapped = chan_voice(ctx, c, &vsmp, &vq, &vqsmp, &vpaused);
+			printf("%d %d %d %d %d ", mapped, vsmp, vq, vqsmp, vpaused);
+		}
 		if (present)
 			printf("1 %d %d %d %d %d %d %d %d %d %ld\n", (x->flg & XMP_SAMPLE_LOOP) ? 1 : 0,
 			       (x->flg & XMP_SAMPLE_SLOOP) ? 1 : 0, (x->flg & XMP_SAMPLE_16BIT) ? 1 : 0, x->data == NULL,
@@ -505,6 +606,51 @@ static void inv_after(struct context_data *ctx)
 		else
 			printf("0 0 0 0 0 0 0 0 0 0 -1\n");
 	}
+}
+
+/* second RNG stream (generator level >= 2): decisions added after cases were recorded do not disturb the first */
+static uint64_t rng2_state;
+static uint32_t r2_below(uint32_t n)
+{
+	uint64_t s = vrng_state;
+	uint32_t r;
+	vrng_state = rng2_state;
+	r = vrng_below(n);
+	rng2_state = vrng_state;
+	vrng_state = s;
+	return r;
+}
+static int r2_range(int lo, int hi) { return lo + (int)r2_below((uint32_t)(hi - lo + 1)); }
+
+/* xmp_set_player with every parameter (read-only and wrong-state ones included) and boundary values */
+static const char *random_set_player(xmp_context opaque)
+{
+	static const int bound[] = { -2147483647 - 1, -2, -1, 0, 1, 2, 3, 4, 7, 8, 15, 16, 63, 64, 100, 101, 200, 201, 255, 256,
+				     0x10000, 0x10001, 2147483647 };
+	static char name[64];
+	int parm = r2_range(-1, 14), val;
+	switch (parm) {
+	case XMP_PLAYER_MODE:
+		val = r2_below(10) < 8 ? r2_range(XMP_MODE_AUTO, XMP_MODE_ITSMP) : r2_range(-1, 12);
+		break;
+	case XMP_PLAYER_FLAGS:
+	case XMP_PLAYER_CFLAGS:
+		val = r2_below(10) < 8 ? (int)r2_below(16) : bound[r2_below(sizeof(bound) / sizeof(bound[0]))];
+		break;
+	case XMP_PLAYER_INTERP:
+		val = r2_range(-1, 3);
+		break;
+	case XMP_PLAYER_VOICES:
+		val = r2_below(2) ? r2_range(1, 64) : bound[r2_below(sizeof(bound) / sizeof(bound[0]))];
+		break;
+	default:
+		val = r2_below(2) ? r2_range(-1, 201) : bound[r2_below(sizeof(bound) / sizeof(bound[0]))];
+	}
+	xmp_set_player(opaque, parm, val);
+	if (r2_below(4) == 0)
+		xmp_get_player(opaque, r2_range(-1, 14));
+	snprintf(name, sizeof(name), "xmp_set_player(%d,%d)", parm, val);
+	return name;
 }
 
 static const int rates[] = { 4000, 8000, 11025, 16000, 22050, 44100, 48000, 49170 };
@@ -550,6 +696,11 @@ static int run_case(uint64_t case_seed, int nops, const char *path)
 			nmut = mutate_events(ctx);
 		if (vrng_chance(35))
 			nspd = vary_c5spd(ctx);
+		if (vrng_chance(40))
+			vary_insvol(ctx);
+		if (vrng_chance(40))
+			inject += inject_invloop_any(ctx);	/* the player mode may be switched to one that honours it */
+		rng2_state = vrng_state;
 		vrng_state = saved;
 	}
 	has_invloop_fx = scan_invloop(mod);
@@ -557,6 +708,7 @@ static int run_case(uint64_t case_seed, int nops, const char *path)
 	printf("case %llu %d %s rate=%d fmt=%d interp=%d inject=%d invloopfx=%d smp=%d pat=%d gen=%d mut=%d c5spd=%d\n",
 	       (unsigned long long)case_seed, nops, path, rate, fmt, interp, inject, has_invloop_fx, mod->smp, mod->pat,
 	       gen_level, nmut, nspd);
+	fflush(stdout);	/* a sanitizer abort must be attributable to this case */
 
 #define AFTER(name, multi) do { if (verbose) printf("op %d %s\n", op, name); compare(ctx, &snap, op, name, multi); } while (0)
 
@@ -570,17 +722,32 @@ static int run_case(uint64_t case_seed, int nops, const char *path)
 			xmp_set_player(opaque, XMP_PLAYER_DSP, vrng_chance(50) ? XMP_DSP_LOWPASS : 0);
 	}
 	AFTER("xmp_start_player", 0);
+	if (started && gen_level >= 2 && r2_below(100) < 45) {
+		/* play the whole history in another player personality */
+		int mode = r2_range(XMP_MODE_MOD, XMP_MODE_ITSMP);
+		xmp_set_player(opaque, XMP_PLAYER_MODE, r2_below(3) == 0 ? XMP_MODE_PROTRACKER : mode);
+		AFTER("xmp_set_player(MODE)", 0);
+	}
 	xmp_get_frame_info(opaque, &fi);
 	total_time = fi.total_time > 0 ? (fi.total_time < 100000000 ? fi.total_time : 100000000) : 1000;
 
 	for (op = 0; op < nops; op++) {
 		int k = vrng_below(100);
 		if (!started) {
+			if (gen_level >= 2 && r2_below(100) < 30) {
+				const char *nm = random_set_player(opaque);	/* loaded, not playing: VOICES is legal here */
+				AFTER(nm, 0);
+			}
 			if (xmp_start_player(opaque, rates[vrng_below(8)], pick_fmt()) == 0) {
 				started = 1;
 				xmp_set_player(opaque, XMP_PLAYER_INTERP, vrng_below(3));
 			}
 			AFTER("xmp_start_player", 0);
+			continue;
+		}
+		if (gen_level >= 2 && r2_below(100) < 10) {
+			const char *nm = random_set_player(opaque);
+			AFTER(nm, 0);
 			continue;
 		}
 		if (k < 45) {
@@ -683,10 +850,22 @@ int main(int argc, char **argv)
 			struct context_data *ctx = (struct context_data *)o;
 			if (xmp_load_module(o, argv[i]) == 0) {
 				struct module_data *m = &ctx->m;
-				int j, loops = 0;
+				int j, k, loops = 0, insvol = 0, mism = 0;
 				for (j = 0; j < m->mod.smp; j++)
 					loops += (m->mod.xxs[j].flg & XMP_SAMPLE_LOOP) && !(m->mod.xxs[j].flg & XMP_SAMPLE_16BIT) && m->mod.xxs[j].data;
-				printf("probe %s %d %d\n", argv[i], HAS_QUIRK(QUIRK_PROTRACK | QUIRK_INVLOOP) ? 1 : 0, loops);
+				for (j = 0; j < m->mod.ins; j++) {
+					struct xmp_instrument *xi = &m->mod.xxi[j];
+					if (xi->vol != m->volbase)
+						insvol++;
+					for (k = 0; k < xi->nsm; k++) {
+						if (xi->sub[k].gvl != m->volbase)
+							insvol++;
+						if (xi->sub[k].sid != j)
+							mism++;	/* instrument and sample numbers differ */
+					}
+				}
+				printf("probe %s %d %d %d %d\n", argv[i], HAS_QUIRK(QUIRK_PROTRACK | QUIRK_INVLOOP) ? 1 : 0, loops,
+				       HAS_QUIRK(QUIRK_INSVOL) ? insvol : 0, mism);
 				xmp_release_module(o);
 			}
 			xmp_free_context(o);
